@@ -41,6 +41,22 @@ func (w *World) checkOutPrefix(cs *connState, complete bool) {
 	tail := expectedOut(cs.tail)
 	for i := 0; i < len(rx) && i < limit; i++ {
 		if rx[i] != exp[i] {
+			// a connection whose output was cut short by a failing system call (the
+			// kernel counted a write error on it, or an injected fault touched it) is
+			// closed: what the framework still held of the accepted operations is
+			// dropped, and only the best-effort writes made inside OnClose may follow
+			if len(tail) > 0 && (cs.sock.WriteErrs > 0 || w.faultTouched(cs)) {
+				ok := false
+				for k := i; k >= 0 && k >= i-8 && !ok; k-- {
+					if r2 := rx[k:]; len(r2) <= len(tail) && string(r2) == string(tail[:len(r2)]) {
+						ok = true
+					}
+				}
+				if ok {
+					w.probes["output-cut-by-error-then-onclose-writes"]++
+					return
+				}
+			}
 			op, off := w.locateOut(cs, i)
 			w.violate("C02", "content", "conn %d: byte %d of the stream the peer received is %#x, expected %#x (operation #%d offset %d of the accepted sequence)", cs.idx, i, rx[i], exp[i], op, off)
 			return
